@@ -773,6 +773,36 @@ def replay(ctx, case, kind=None, where=None):
         run_static(ctx)
 
 
+def stream_pasv(ctx, n):
+    """parse_address on replies holding any six numbers of one to three digits (and fewer / more): the real
+    function against the model `Wpull.Ftp.parseAddress`; an accepted address always names a port connect() accepts."""
+    from wpull.protocol.ftp.util import parse_address
+    rng = ctx.rng
+    reqs, meta = [], []
+    for i in range(n):
+        k = 6 if rng.random() < 0.9 else rng.choice([0, 1, 5])
+        nums = [rng.choice([0, 1, 7, 10, 127, 228, 255, 256, 257, 300, 511, 512, 999, rng.randint(0, 999)]) for _ in range(k)]
+        text = rng.choice(['Entering Passive Mode (%s)', '(%s)', '=(%s).', 'ok (%s) bye']) % rng.choice([',', ', ', ' ,']).join(str(x) for x in nums)
+        try:
+            host, port = parse_address(text)
+            real = 'ok %s %d' % (host, port)
+        except ValueError:
+            real = 'exc ValueError'
+        except Exception as e:   # noqa
+            real = 'exc ' + type(e).__name__
+        reqs.append('ftp pasv ' + (','.join(str(x) for x in nums) if nums else '0'))
+        meta.append((text, real, len(nums)))
+    replies = ctx.model.ask(reqs)
+    for (text, real, k), rep in zip(meta, replies):
+        ctx.case(('pasv', text), tags=['pasv:' + real.split(' ')[0]])
+        if k == 6 and rep != real:
+            ctx.disagree('pasv', {'stream': 'pasv', 'text': text}, rep, real)
+        if real.startswith('ok') and int(real.split(' ')[2]) > 65535:
+            ctx.fail('OverflowError', 'parse_address', {'stream': 'pasv', 'text': text}, 'accepted address %s: connect() raises OverflowError for this port' % real)
+    if meta:
+        ctx.sample({'stream': 'pasv', 'text': meta[0][0]})
+
+
 def load_corpus(ctx):
     out = []
     for p in sorted(glob.glob(os.path.join(ctx.verif, 'harness', 'corpus', 'C09', '*.json'))):
@@ -799,6 +829,7 @@ def run(ctx):
     stream_http(ctx, ctx.scale(400, 5000), robots=True)
     stream_cookies(ctx, ctx.scale(120, 2500))
     stream_ftp(ctx, ctx.scale(1200, 15000))
+    stream_pasv(ctx, ctx.scale(1500, 30000))
     stream_ftp_proc(ctx, ctx.scale(500, 8000))
     stream_e2e(ctx, ctx.scale(100, 1200))
 
